@@ -41,8 +41,8 @@ def case_term(c):
     show = "None"
     if st["kind"] == "show" and o["class"] == "ok":
         show = "(Some %s)" % X.strs(o.get("show") or [])
-    return "(%d%%nat, %s, (fun draw => %s), mkObs %s %s %s)" % (
-        c["bulk"], X.store(c["prev"]), X.stmt(st), X.oclass(o["class"]), show, X.store(o["after"]))
+    return "(%s, %d%%nat, %s, (fun draw => %s), mkObs %s %s %s)" % (
+        X.cbool(X.det_rows(st)), c["bulk"], X.store(c["prev"]), X.stmt(st), X.oclass(o["class"]), show, X.store(o["after"]))
 
 
 def model_mismatches(ctx, name, cases):
